@@ -13,6 +13,12 @@ var CustomErr = Type("CustomErr", func() {
 
 var _ = Service("svc", func() {
 	Error("svc_err")
+	Error("slow", func() { Timeout() })
+	Error("busy", func() { Temporary() })
+	Error("down", func() {
+		Temporary()
+		Fault()
+	})
 	Method("do", func() {
 		Payload(func() { Attribute("x", Int) })
 		Error("not_found")
